@@ -42,6 +42,8 @@ def rand_tree(rng):
     nlang = rng.choice([1, 2, 3, 5, 7])
     langs = rng.sample(sorted(LANGS), nlang)
     places = [""] * 2 + [d + "/" for d in subdirs if not d.startswith("empty")] * 3 + [d + "/sub/deep/" for d in subdirs if not d.startswith("empty")]
+    # an IDE / report directory BELOW a counted subdirectory belongs to that subdirectory's row (only the top-level ones are left out)
+    places += [d + "/" + x + "/" for d in subdirs if not d.startswith("empty") and d not in IGNORED for x in (".idea", "coca_reporter")]
     for i in range(rng.choice([1, 3, 6, 12, 25])):
         lang = rng.choice(langs)
         place = rng.choice(places)
